@@ -514,21 +514,26 @@ impl Job for BoxcarScript {
                 sim::violation("C08", "accepted-beyond-capacity", format!("a batch reporting {rep} items (more than the vector can ever hold) was accepted"));
             }
         }
-        // a second vector whose item type has no drop glue: its matcher columns still own memory
-        // (C11: "together with the matcher columns filled for it")
-        let side = RawVec::<u32>::with_capacity(self.capacity.min(1), self.columns);
-        for k in 0..3u32 {
-            side.push(k, |v, cols| {
-                for c in cols.iter_mut() {
-                    *c = alloc::tracked(|| Utf32String::from(format!("side{v}").as_str()));
-                }
-            });
-        }
-        side.extend([7u32, 8, 9].into_iter(), |v, cols| {
+        // a second vector whose item type has no drop glue, size 3 and alignment 1 (the matcher
+        // columns behind it still own memory and need 8-byte alignment): C11 "together with the
+        // matcher columns filled for it", and the entry layout arithmetic for an odd item size
+        let side = RawVec::<[u8; 3]>::with_capacity(self.capacity.min(1), self.columns);
+        let side_fill = |v: &[u8; 3], cols: &mut [Utf32String]| {
             for c in cols.iter_mut() {
-                *c = alloc::tracked(|| Utf32String::from(format!("side{v}").as_str()));
+                *c = alloc::tracked(|| Utf32String::from(format!("side{}", v[0]).as_str()));
             }
-        });
+        };
+        for k in 0..3u8 {
+            side.push([k, k, k], side_fill);
+        }
+        side.extend((3..40u8).map(|k| [k, 0, k]).collect::<Vec<_>>().into_iter(), side_fill);
+        for k in 0..40u32 {
+            let it = side.get(k).unwrap_or_else(|| sim::violation("C08", "lost", format!("side vector: index {k} is empty after a sequential push")));
+            let want = format!("side{k}");
+            if it.data[0] as u32 != k || it.matcher_columns.iter().any(|c| c.to_string() != want) {
+                sim::violation("C08", "bad-columns", format!("side vector: index {k} holds value {:?} with columns {:?}", it.data, it.matcher_columns.iter().map(|c| c.to_string()).collect::<Vec<_>>()));
+            }
+        }
         let needs_pool = self.threads.iter().flatten().any(|o| matches!(o, BOp::ParSnapshot { .. }));
         let pool = needs_pool.then(|| Arc::new(rayon::ThreadPoolBuilder::new().num_threads(self.pool_threads as usize).build().unwrap()));
         let mut hs = Vec::new();
